@@ -21,6 +21,9 @@ def run(ctx):
     ctx.section(ready_bits)
     ctx.section(lambda c: generic.init_complete(c, 'R-C03c', kinds={'iv_fd_'}))
     ctx.section(tokens)
+    ctx.rule('R-C03e', 'no kernel registration outlives unregister: unregistering synchronously removes the descriptor from the kernel set '
+                       'unless nothing is registered there (shared with C01 R-C01c; a stale registration delivers events for a reused struct)', floor=2)
+    ctx.section(kernel_registration)
 
 
 def dispatch(ctx):
@@ -187,3 +190,17 @@ def tokens(ctx):
                     ok = False
             ctx.ob('R-C03d', '%s:token %s' % (t.replace('iv_fd_poll_method_', ''), tk), ok, loc=f.loc,
                    detail='every use of a batch entry as a descriptor is on the edge data.ptr != %s' % tk, fn=f.q)
+
+
+def kernel_registration(ctx):
+    import types
+    sub = []
+    proxy = types.SimpleNamespace(prog=ctx.prog, ob=lambda rid, inst, ok, **kw: sub.append((rid, inst, ok, kw)), exempt=lambda *a, **k: None)
+    c01.holders(proxy)
+    n = 0
+    for rid, inst, ok, kw in sub:
+        if inst.startswith('holder:kernel') or inst.startswith('holder:slot iv_fd_'):
+            n += 1
+            ctx.ob('R-C03e', inst, ok, **kw)
+    if n < 2:
+        raise AnalysisBroken('kernel registration holder rules not found')
